@@ -2044,7 +2044,7 @@ class Converter:
         'NOPE'
         """
         rv = self.synonym_to_prefix.get(prefix)
-        if rv:
+        if rv is not None:
             return rv
         if strict:
             raise PrefixStandardizationError(prefix)
